@@ -83,7 +83,7 @@ var extraProps = map[string][]string{
 	"WRITE-UNCOND": {"C16"}, "WRITE-INFLATES": {"C16"}, "MERGE-PURE": {"C16"},
 	// C06: the mailboxes of one node are elements of an IncMap, which commits / aborts the elements its key list names
 	"MB-CONN-DROP": {"C17"}, // a connection closed after a failed exchange but still held is closed again by Close: Run's clean-up reports an error
-	"HASHMAP-KEYS": {"C06", "C02"}, "HASHMAP-EQ": {"C06"},
+	"HASHMAP-KEYS": {"C06", "C02", "C07"}, "HASHMAP-EQ": {"C06"}, // C07: shared variables in one IncMap are committed / released through the key list
 	// C02: "the same variable updates" - the values a step assigns are computed by the operator library, so the rules that
 	// decide what the built-in operators compute (C03) decide a necessary part of C02 as well
 	"OVERRIDE-DIR": {"C02"}, "OP-DECISION": {"C02"}, "OP-RELATION": {"C02"}, "DIVMOD-FLOOR": {"C02"}, "SEQ-BOUNDS": {"C02"},
